@@ -8,8 +8,12 @@ Events == JsonDeserialize(IOEnv.TRACE_FILE)
 VARIABLES l, done
 tv == << l, done >>
 IsConsensus(t) == t \in ConsensusTypes \cup {"VlqOnly"}
+(* C18 (kind "netfmt"): bytes the code produced for a header at a height of the real network must be the network's wire format,  *)
+(* i.e. what Wire's decoder (strict: the encoder's VLQ form) reads back as its own canonical encoding.                           *)
+NetFmt(e) == LET r == Dec(e.t, e.b, 1) IN r.ok /\ r.p - 1 = Len(e.b) /\ r.enc = e.b
 P(e) ==
-  IF e.kind = "value" /\ ~e.dec THEN "C07:encoding_of_a_value_does_not_decode"
+  IF e.kind = "netfmt" THEN (IF NetFmt(e) /\ e.dec /\ e.reenc_equal THEN "" ELSE "C18:header_encoding_at_a_real_network_height_is_not_the_wire_format_of_the_network")
+  ELSE IF e.kind = "value" /\ ~e.dec THEN "C07:encoding_of_a_value_does_not_decode"
   ELSE IF e.kind = "value" /\ ~e.roundtrip THEN "C07:value_changed_by_encode_then_decode"
   ELSE IF e.dec /\ IsConsensus(e.t) /\ ~e.reenc_equal THEN "C07:decoded_bytes_are_not_the_single_canonical_encoding"
   ELSE IF e.dec /\ IsConsensus(e.t) /\ ~e.same_enc THEN "C07:same_value_accepted_under_two_encodings"
@@ -17,7 +21,8 @@ P(e) ==
   ELSE ""
 M(e) ==
   LET r == Dec(e.t, e.b, 1)
-  IN IF r.ok # e.dec THEN "decodability differs from Wire!Dec"
+  IN IF e.kind = "netfmt" THEN ""
+     ELSE IF r.ok # e.dec THEN "decodability differs from Wire!Dec"
      ELSE IF r.ok /\ r.p - 1 # e.consumed THEN "consumed length differs from Wire!Dec"
      ELSE IF r.ok /\ IsConsensus(e.t) /\ (r.enc = SubSeq(e.b, 1, r.p - 1)) # e.reenc_equal THEN "canonicality differs from Wire!Dec"
      ELSE ""
